@@ -266,8 +266,9 @@ Definition cfg_of_facts (nonevm evm : list string) (x : ext_facts) (gp ga : guar
      g_authz := guard_active nonevm N_AUTHZ_GUARD ga [T_ETH; T_EXEC; T_GRANT] && g_into_exec ga;
      g_authz_rec := g_recursive ga;
      vb_on := mem N_VALIDATE_BASIC nonevm;
-     sig_on := mem N_SET_PUBKEY nonevm && mem N_SIG_VERIFY nonevm && mem N_SIG_GAS nonevm;
-     sig_accepts_eth := negb (String.eqb sgc "DefaultSigVerificationGasConsumer");
+     sig_on := mem N_SET_PUBKEY nonevm && mem N_SIG_VERIFY nonevm;
+     (* eth_secp256k1 keys are turned away by DefaultSigVerificationGasConsumer inside SigGasConsumeDecorator *)
+     sig_accepts_eth := negb (mem N_SIG_GAS nonevm && String.eqb sgc "DefaultSigVerificationGasConsumer");
      fee_on := mem N_DEDUCT_FEE nonevm;
      seq_on := mem N_INCR_SEQ nonevm;
      e_vb := mem N_ETH_VALIDATE_BASIC evm;
